@@ -43,6 +43,8 @@ type opsWorld struct {
 	Served      map[uint32][]byte
 	lastArchive []byte
 	Armed       string // injected failure for the next operation ("file:stage")
+	Dirty       bool   // a state-changing operation has run since the last explicit "touch"
+	LastTouch   string // digest of the model state at the last explicit "touch": what a cache filled then would hold
 }
 
 // extraCheck is a hook for scenario-specific oracles (C14 inspects the zip).
@@ -159,7 +161,12 @@ func (w *opsWorld) apply(op string) (r opResult) {
 		return
 	}
 	if parts[0] == "touch" {
-		w.touch(w.M) // requests whose answers might be remembered by the server
+		// requests whose answers might be remembered by the server; their content is compared on the spot
+		if sig, what := w.touch(w.M); sig != "" {
+			r.Sig, r.Obs, r.Want = sig, what, "what the server holds"
+		}
+		w.Dirty = false
+		w.LastTouch = fmt.Sprintf("%x", keccak([]byte(w.M.valueKey() + fmt.Sprint(len(w.M.Servers), len(w.M.Migrations))))[:6])
 		return
 	}
 	if parts[0] == "fail" {
